@@ -1,7 +1,7 @@
 """rule registry: groups, property -> rule ids"""
 import importlib
 
-GROUPS = ['rules_send', 'rules_recv', 'rules_wait', 'rules_pop', 'rules_fut', 'rules_mem', 'rules_misc', 'rules_extra', 'rules_extra2', 'rules_r10']
+GROUPS = ['rules_send', 'rules_recv', 'rules_wait', 'rules_pop', 'rules_fut', 'rules_mem', 'rules_misc', 'rules_extra', 'rules_extra2', 'rules_r10', 'rules_sweep']
 
 
 def run_group(ctx, name):
@@ -11,7 +11,7 @@ def run_group(ctx, name):
     ctx._groups_done.add(name)
 
 
-THOROUGH_GROUPS = ['rules_sweep']
+THOROUGH_GROUPS = []   # (the crate-wide sweeps W1s / W3s run in both tiers since round 11)
 
 
 def run_all(ctx, thorough=True):
